@@ -1,10 +1,11 @@
-/- the monitor's step as it was BEFORE the two corrections delivered with the soundness proof
-   (verbatim copy of `Nng.AioSpec.step` / `judge` from the previous Spec/Aio.lean; types shared).
-   Only used in Props/C02.lean to show, by `decide`, executions of the repaired model that the
-   old monitor rejected although the property holds (false alarms), and that the corrected
-   monitor accepts. -/
+/- the monitor's step as it was BEFORE the correction "the absolute expiry of nng_aio_set_expire is
+   one-shot" (verbatim copy of `Nng.AioSpec.step` / `judge` from the previous Spec/Aio.lean, with an arm
+   ignoring the observation `settled` that did not exist then; types shared): its `absExp` persisted
+   until the next nng_aio_set_timeout although nni_aio_finish_impl clears `a_use_expire`.
+   Only used in Props/C02.lean (`old_monitor_false_alarm_abs_expire`) to show, by `decide`, a legal
+   execution of the repaired model that the old monitor rejected and the corrected monitor accepts. -/
 import NngModel.Spec.Aio
-namespace Nng.AioSpecOld
+namespace Nng.AioSpecOld2
 open Nng.AioSpec
 
 def step (j : J) (o : Obs) : J :=
@@ -22,7 +23,9 @@ def step (j : J) (o : Obs) : J :=
   | .setExpire e => { j with absExp := some e }
   | .skipArm => { j with skipArmed := true }
   | .subCall k =>
-    { j with ops := { kind := k, tsub := j.now, tmo := j.tmo, absExp := j.absExp, aborts := j.openCodes } :: j.ops }
+    -- (an abort still in flight at the start may hit this operation: its code, ETIMEDOUT included, is the user's)
+    { j with ops := { kind := k, tsub := j.now, tmo := j.tmo, absExp := j.absExp, aborts := j.openCodes,
+                      userTimeout := j.openCodes.contains ETIMEDOUT } :: j.ops }
   | .subRet v =>
     -- (a start refused after nng_aio_stop returned completes the operation with NNG_ESTOPPED)
     let j := { j with ops := updNewest j.ops fun o =>
@@ -35,7 +38,8 @@ def step (j : J) (o : Obs) : J :=
         -- v = 1: the skip flag was set instead of running the callback
         if v = 1 then
           if j.reports + 1 = j.ops.length then
-            { j with reports := j.reports + 1, ops := markReported j.ops j.reports, skipArmed := false }
+            -- (no callback reported this operation's result: nothing to compare a later `peek` with)
+            { j with reports := j.reports + 1, ops := markReported j.ops j.reports, skipArmed := false, lastCb := none }
           else j.fail "exactly-once: skip flag set while another report is pending"
         else { j with skipArmed := false }
       | _ => j
@@ -100,7 +104,7 @@ def step (j : J) (o : Obs) : J :=
     if j.reports = j.ops.length then j else j.fail "exactly-once: fewer reports than operations at quiescence"
   | .settled => j               -- (observation added later; the old monitor had no clause for it)
 
-/-- the monitor: `none` = the execution satisfies C02 -/
+/-- the old monitor -/
 def judge (tr : List Obs) : Option String := (tr.foldl step {}).err
 
-end Nng.AioSpecOld
+end Nng.AioSpecOld2
